@@ -49,8 +49,9 @@ LO = int(os.environ.get("VERIF_LO", "0"))
 HI = int(os.environ.get("VERIF_HI", "1000000"))
 NCELL = H * W
 REPAIRS = int(os.environ.get("VERIF_REPAIRS", "2"))
+ORDMIN = int(os.environ.get("VERIF_ORDMIN", "0"))
 ORDMAX = int(os.environ.get("VERIF_ORDMAX", "2"))
-MODE = os.environ.get("VERIF_MODE", "all")      # which bound parameters are symbolic: all | counts | sizes | none (others are None)
+MODE = os.environ.get("VERIF_MODE", "all")      # which bound parameters are symbolic: all | counts | sizes | mn | mx | smin | smax | none (others are None)
 
 
 def _mode(mn, mx, smin, smax):
@@ -60,6 +61,9 @@ def _mode(mn, mx, smin, smax):
         return None, None, smin, smax
     if MODE == "none":
         return None, None, None, None
+    if MODE in ("mn", "mx", "smin", "smax"):        # one parameter symbolic
+        return (mn if MODE == "mn" else None, mx if MODE == "mx" else None, smin if MODE == "smin" else None,
+                smax if MODE == "smax" else None)
     return mn, mx, smin, smax
 
 
@@ -141,6 +145,10 @@ def _valid(blocks) -> bool:
     return len(seen) == NCELL and len(set(seen)) == NCELL
 
 
+def _same(a, b) -> bool:
+    return a == b
+
+
 def _eff(v, default):
     """documented constructor convention: None (and 0) mean 'no bound'"""
     return v if v else default
@@ -207,7 +215,7 @@ def h_step(p: int, ordv: int, mn: int, mx: int, smin: int, smax: int, sa: int, s
     """
     from ANY valid partition inside the bounds, every proposed update leads to a valid partition inside the bounds, and neither
     proposing nor applying updates modifies the partition they start from
-    pre: LO <= p < PHI and 0 <= ordv <= ORDMAX and 0 <= sa < NCELL and 0 <= sb < NCELL
+    pre: LO <= p < PHI and ORDMIN <= ordv <= ORDMAX and 0 <= sa < NCELL and 0 <= sb < NCELL
     post: _
     """
     mn, mx, smin, smax = _mode(mn, mx, smin, smax)
@@ -220,11 +228,11 @@ def h_step(p: int, ordv: int, mn: int, mx: int, smin: int, smax: int, sa: int, s
     saved = _install(_Seeds(sa, sb))
     try:
         cands = b.candidates(cur)
-        if cur != snapshot:
+        if not _native(_same, cur, snapshot):
             return False
         for upd in cands:
-            nxt = b.copy_with_update(cur, upd)
-            if cur != snapshot:
+            nxt = _native(b.copy_with_update, cur, upd)       # concrete data only: the real method, outside the tracer
+            if not _native(_same, cur, snapshot):
                 return False
             if not _native(_valid, nxt) or not _within(nxt, emn, emx, esmin, esmax):
                 return False
@@ -237,7 +245,7 @@ def h_step_unmet(p: int, ordv: int, mn: int, mx: int, smin: int, smax: int, sa: 
     """
     the same from a valid partition that is NOT inside the bounds (allow_unmet_constraints_first / initial_blocks): updates
     still lead to valid partitions (blocks connected, board covered once) and modify nothing
-    pre: LO <= p < PHI and 0 <= ordv <= ORDMAX and 0 <= sa < NCELL and 0 <= sb < NCELL
+    pre: LO <= p < PHI and ORDMIN <= ordv <= ORDMAX and 0 <= sa < NCELL and 0 <= sb < NCELL
     post: _
     """
     mn, mx, smin, smax = _mode(mn, mx, smin, smax)
@@ -248,8 +256,8 @@ def h_step_unmet(p: int, ordv: int, mn: int, mx: int, smin: int, smax: int, sa: 
     saved = _install(_Seeds(sa, sb))
     try:
         for upd in b.candidates(cur):
-            nxt = b.copy_with_update(cur, upd)
-            if cur != snapshot or not _native(_valid, nxt):
+            nxt = _native(b.copy_with_update, cur, upd)
+            if not _native(_same, cur, snapshot) or not _native(_valid, nxt):
                 return False
     finally:
         _restore(saved)
@@ -260,7 +268,7 @@ def h_split(q: int, ordv: int, sa: int, sb: int) -> bool:
     """
     split_block on ANY connected block of at least two cells, any two distinct seed cells: two non-empty connected parts that
     together are exactly the block; the block itself is not modified
-    pre: LO <= q < QHI and 0 <= ordv <= ORDMAX and 0 <= sa < NCELL and 0 <= sb < NCELL
+    pre: LO <= q < QHI and ORDMIN <= ordv <= ORDMAX and 0 <= sa < NCELL and 0 <= sb < NCELL
     post: _
     """
     block = _variant([POLYS[q]], ordv)[0]
@@ -289,7 +297,7 @@ def h_initial(p: int, given: int, ordv: int, mn: int, mx: int, smin: int, smax: 
     """
     whatever initial() returns (after at most REPAIRS <= 2 repair steps) is a valid partition inside the bounds, and the
     initial_blocks handed to the constructor are not modified
-    pre: LO <= p < PHI and 0 <= given <= 1 and 0 <= ordv <= ORDMAX and 0 <= c0 < 64 and 0 <= c1 < 64 and 0 <= sa < NCELL and 0 <= sb < NCELL
+    pre: LO <= p < PHI and 0 <= given <= 1 and ORDMIN <= ordv <= ORDMAX and 0 <= c0 < 64 and 0 <= c1 < 64 and 0 <= sa < NCELL and 0 <= sb < NCELL
     post: _
     """
     mn, mx, smin, smax = _mode(mn, mx, smin, smax)
@@ -322,7 +330,7 @@ def h_initial(p: int, given: int, ordv: int, mn: int, mx: int, smin: int, smax: 
 def h_initial_unmet(p: int, given: int, ordv: int, mn: int, mx: int, smin: int, smax: int) -> bool:
     """
     with allow_unmet_constraints_first the initial value is the given partition (or the one-block board) as it is: valid, a copy
-    pre: LO <= p < PHI and 0 <= given <= 1 and 0 <= ordv <= ORDMAX
+    pre: LO <= p < PHI and 0 <= given <= 1 and ORDMIN <= ordv <= ORDMAX
     post: _
     """
     mn, mx, smin, smax = _mode(mn, mx, smin, smax)
